@@ -201,7 +201,19 @@ var (
 		"ⓐ", "Ⓐ", "𐐨", "𐐀", "世", "1", " ", "-", "€", "ǈ", "ᾳ", "ŉ", "ﬁ", "ͅ", "µ"}
 )
 
+// longLens: byte lengths around which an implementation might switch strategy (buffers, block copies).
+var longLens = []int{255, 256, 257, 1000, 1023, 1024, 1025, 4095, 4096, 4097, 10000, 65536}
+
 func genText(s pbt.Src, max int, raw bool) string {
+	// one text in fourteen is long: a short random unit repeated up to one of longLens bytes
+	if max >= 8 && s.Intn(14) == 0 {
+		unit := genText(s, 6, raw)
+		if unit == "" {
+			unit = "a"
+		}
+		n := longLens[s.Intn(len(longLens))]
+		return strings.Repeat(unit, n/len(unit)+1)[:n/len(unit)*len(unit)]
+	}
 	parts := pbt.Seq(s, 0, max, func(s pbt.Src) string {
 		n := len(wideSyms)
 		if raw {
@@ -953,6 +965,14 @@ func styleGen(s pbt.Src, thorough bool) StyleCase {
 		w := pbt.Seq(s, 1, 8, func(s pbt.Src) byte { return letters[s.Intn(len(letters))] })
 		return string(w)
 	})
+	if len(words) > 0 && s.Intn(14) == 0 {
+		// many words: the drawn ones repeated (hundreds to thousands of words)
+		reps := []int{40, 171, 700, 2000}[s.Intn(4)]
+		base := words
+		for i := 1; i < reps; i++ {
+			words = append(words, base...)
+		}
+	}
 	for i, w := range words {
 		if i > 0 {
 			sep(1)
